@@ -12,12 +12,15 @@ Pipe == tuple, Spec(x) == x).
 """
 import collections
 
+import os
+
 from hypothesis import strategies as st
 
 import glom
 from glom import (T, Spec, Val, Coalesce, Call, Invoke, Ref, Pipe, SKIP, STOP, GlomError, PathAccessError,
                   CoalesceError, Path)
 
+from .. import fuzzrun
 from ..runner import Sub, Mismatch
 from .. import targets as tg
 
@@ -731,4 +734,5 @@ SUBS = [
         floors={'exp-ok': 0.5, 'exp-err': 0.03, 'has-coalesce': 0.1, 'has-dict': 0.15, 'has-list': 0.1,
                 'has-invoke': 0.03, 'has-ref': 0.03, 'nested-chain-sentinel': 0.02, 'composition-checked': 0.01}),
     Sub('val-identity', check_val_identity, enum=enum_vals),
+    fuzzrun.fuzz_sub('fuzz-auto', 'hyp:c03:auto', runs=30000, campaigns=4, replay_sub='auto'),
 ]
